@@ -139,4 +139,15 @@ func init() {
 		Assumptions: []string{"geosite/geoip codes expand to fixed lists", "deep copy is structural"},
 		QuickBudget: 8 * time.Minute, ThoroughBudget: 60 * time.Minute,
 	}
+	checks["C01"] = &CheckDef{
+		Pkgs:    []string{"./control"},
+		Harness: []string{"control:Verif_C01_one_rule", "control:Verif_C01_two_rules"},
+		MaxIter: 600,
+		Level:   "other",
+		LevelText: "x", LevelNote: "x",
+		Technique: techniqueText,
+		Explanation: "Bounded symbolic execution of rule compilation and the userspace matcher.",
+		Bounds:  map[string]string{"quick": "", "thorough": ""},
+		QuickBudget: 8 * time.Minute, ThoroughBudget: 60 * time.Minute,
+	}
 }
